@@ -341,13 +341,15 @@ func ccParked(in *ccInput, o *ccObs) {
 		}
 	}()
 	run := sched.NewRun(1)
-	run.Timeout = 20 * time.Second
 	var noteA string
 	run.Go(0, func(gate func(string)) { noteA = ccCall(sp, in.A, 0, 1) })
 	for guard := 0; guard < 100; guard++ {
 		at, ok := run.At(0)
 		if !ok {
-			o.Note = "operation a neither reached an observation point nor returned"
+			sched.NoteStuck()
+			o.Calls[in.A]++
+			o.Bad[in.A]++
+			o.Note += fmt.Sprintf("a=%s neither reached an observation point nor returned (b=%s, gate %s); ", in.A, in.B, in.Gate)
 			return
 		}
 		if at == "exit" {
@@ -355,7 +357,7 @@ func ccParked(in *ccInput, o *ccObs) {
 		}
 		if at == in.Gate && !o.Reached {
 			o.Reached = true
-			noteB := ccCall(sp, in.B, 1, 2)
+			noteB := ccCallTimed(sp, in.B, 1, 2)
 			o.Calls[in.B]++
 			if noteB != "" {
 				o.Bad[in.B]++
@@ -397,6 +399,7 @@ func ccStress(in *ccInput, o *ccObs, seed int64) {
 	defer sched.YieldAtPoints.Store(false)
 	var mu sync.Mutex
 	var wg sync.WaitGroup
+	abandoned := false
 	deadline := time.Now().Add(dur)
 	for j := 0; j < g; j++ {
 		wg.Add(1)
@@ -418,6 +421,10 @@ func ccStress(in *ccInput, o *ccObs, seed int64) {
 				calls++
 			}
 			mu.Lock()
+			if abandoned {
+				mu.Unlock()
+				return
+			}
 			o.Calls[op] += calls
 			o.Bad[op] += bad
 			if first != "" && len(o.Note) < 600 {
@@ -426,7 +433,35 @@ func ccStress(in *ccInput, o *ccObs, seed int64) {
 			mu.Unlock()
 		}(j)
 	}
-	wg.Wait()
+	// a call that never returns is a wrong result too (and must not hang the check)
+	done := make(chan struct{})
+	go func() { wg.Wait(); close(done) }()
+	select {
+	case <-done:
+	case <-time.After(dur + sched.DefaultTimeout()):
+		sched.NoteStuck()
+		mu.Lock()
+		abandoned = true
+		for _, op := range ops {
+			o.Calls[op]++
+			o.Bad[op]++
+		}
+		o.Note += "some calls did not return; "
+		mu.Unlock()
+	}
+}
+
+// ccCallTimed is ccCall that gives up waiting (the call keeps running in its goroutine).
+func ccCallTimed(sp *saml2.SAMLServiceProvider, op string, k, n int) string {
+	res := make(chan string, 1)
+	go func() { res <- ccCall(sp, op, k, n) }()
+	select {
+	case r := <-res:
+		return r
+	case <-time.After(sched.DefaultTimeout()):
+		sched.NoteStuck()
+		return "the call did not return"
+	}
 }
 
 func diffDigest(a, b string) string {
